@@ -96,13 +96,18 @@ class Run:
         self.files = {}; self.err = None; self.line = ""; self.idx = -1
 
 
-def _digest(path):
+def _digest(path, datefree=False):
+    """sha256 per result file; datefree: dates printed dd.mm.yy[yy] (the fertiliser prediction file prints them in the
+    project's date format, not through the output configuration) are blanked first"""
     out = {}
     if os.path.isdir(path):
         for root, _, files in os.walk(path):
             for fn in files:
                 p = os.path.join(root, fn)
-                out[os.path.relpath(p, path)] = hashlib.sha256(open(p, "rb").read()).hexdigest()
+                data = open(p, "rb").read()
+                if datefree and fn.startswith("D"):
+                    data = re.sub(rb" *\b\d\d\.\d\d\.\d\d(\d\d)?\b", b" DATE", data)
+                out[os.path.relpath(p, path)] = hashlib.sha256(data).hexdigest()
     return out
 
 
@@ -186,7 +191,7 @@ def run_lines(env, tag, lines, conc=16, timeout=900):
             errs[chunk[0][0]] = "process died " + tail
         for i, l in chunk:
             r = Run(); r.idx = i; r.line = l
-            r.files = _digest(os.path.join(root, "l%d" % i))
+            r.files = _digest(os.path.join(root, "l%d" % i), datefree=i in getattr(env, "datefree", ()))
             if i in errs:
                 r.err = errs[i]
             elif not r.files:
